@@ -318,10 +318,20 @@ pub fn stall_limit(launcher: &Launcher) -> std::time::Duration {
         .ok()
         .and_then(|s| s.parse().ok())
         .unwrap_or(match launcher {
-            Launcher::Native => 120,
+            Launcher::Native => 60,
             Launcher::Miri => 900,
         });
     std::time::Duration::from_secs(secs)
+}
+
+/// A single case normally takes microseconds (seconds under Miri): the
+/// limit for one case in a child process is tighter than for a worker.
+pub fn case_limit(launcher: &Launcher) -> std::time::Duration {
+    let w = stall_limit(launcher).as_secs();
+    std::time::Duration::from_secs(match launcher {
+        Launcher::Native => w.min(20),
+        Launcher::Miri => w.min(600),
+    })
 }
 
 /// How to start a worker: natively (this executable) or under Miri.
@@ -671,7 +681,7 @@ pub fn case_in_child(launcher: &Launcher, case: &J) -> Result<Option<(String, St
         .spawn()
         .map_err(|e| format!("spawn: {e}"))?;
     // bounded wait: a case that does not finish is a hang
-    let limit = stall_limit(launcher);
+    let limit = case_limit(launcher);
     let t0 = Instant::now();
     let mut timed_out = false;
     let mut so = child.stdout.take().unwrap();
@@ -825,7 +835,10 @@ pub fn persist_violation(
     launcher: &Launcher,
 ) -> Result<Finding, String> {
     let crash = v.class == "crash" || v.class == "hang";
-    let budget = if crash {
+    let budget = if v.class == "hang" {
+        // every candidate that still hangs costs the full time limit
+        6
+    } else if crash {
         if *launcher == Launcher::Miri {
             8
         } else {
